@@ -1,6 +1,7 @@
 package allocation
 
 import (
+	"net"
 	"time"
 
 	"github.com/pion/turn/v5/internal/proto"
@@ -172,5 +173,30 @@ func VerifHarness_C05_two_datagrams() {
 	}
 	_ = by1
 	vCover(vAnd(by1, vAnd(perm2, !by2)), "C05.cover_bound_peer_then_same_ip_other_port")
+	vReach("end")
+}
+
+// A permission that expires between two datagrams of the same sender: the first is relayed, the second is not.
+//
+//verif:props=C02,C01 replay=model unwind=20 bounds="one permission; two datagrams (0..4 bytes) from senders with that IP (any ports); the permission expires in between"
+func VerifHarness_C02_expiry_between_datagrams() {
+	env := VNewManager(false, false)
+	m := env.M
+	turnA := &VPacketConn{Name: "turnA"}
+	a, err := m.CreateAllocation(VFiveTuple(), turnA, proto.ProtoUDP, 0, 600*time.Second, "u1", "realm", proto.RequestedFamilyIPv4)
+	vAssume(err == nil)
+	peer := VUDPAddr4()
+	a.AddPermission(NewPermission(peer, &VLogger{}, 300*time.Second))
+	perm := a.GetPermission(peer)
+	vAssume(perm != nil)
+	s1 := &net.UDPAddr{IP: peer.IP, Port: VPort()}
+	s2 := &net.UDPAddr{IP: peer.IP, Port: VPort()}
+	env.Relays[0].Script = []VDatagram{
+		{Data: vBytes(4), From: s1},
+		{Data: vBytes(4), From: s2, Before: func() { vFire(perm.lifetimeTimer) }},
+	}
+	vRunSpawn(0)
+	vAssert(len(turnA.Writes) == 1, "C02.datagram_after_permission_expiry_is_discarded")
+	vAssert(len(turnA.Writes) == 1, "C01.expired_permission_never_authorises_inbound_either")
 	vReach("end")
 }
